@@ -37,7 +37,7 @@ def gen_image(rng, R, small=True, idx=0):
         "type": rng.choice(["dvd", "boot"] if small else types), "format": rng.choice(["iso"] if small else formats),
         "arch": rng.choice(["x86_64", "src"] if small else ARCHES + ["src"]),
         "disc_number": rng.choice([1, 2, 1, 2, 0]), "disc_count": rng.choice([1, 2, 1, 2, 0]),
-        "checksums": rng.choice([{"sha256": "a" * 64}, {"sha256": "b" * 64}, {"md5": "c" * 32, "sha256": "a" * 64}]),
+        "checksums": rng.choice([{"sha256": "a" * 64}, {"sha256": "b" * 64}, {"md5": "c" * 32, "sha256": "a" * 64}] + ([{}] if small else [])),
         "implant_md5": rng.choice([None, "0123456789abcdef" * 2]), "bootable": rng.random() < 0.5,
         "subvariant": rng.choice(["Server", "", "KDE"] if small else ["Server", "KDE", "", "Workstation"]),
         "unified": unified, "additional_variants": (rng.sample(VARIANTS, rng.randint(1, 2)) if unified and rng.random() < 0.7 else []),
@@ -168,6 +168,8 @@ def impl_roundtrip(case):
         except EXC:
             pass
     accepted = {v: {a: sorted(s) for a, s in arches.items()} for v, arches in accepted.items()}
+    for v, a in case.get("empty_buckets", []):
+        im.images.setdefault(v, {}).setdefault(a, set())          # e.g. left behind after the last image was discarded
     placed = {v: {a: sorted(({f: getattr(o, f) for f in FIELDS} for o in cell), key=lambda d: str(d["path"]))
                   for a, cell in arches.items()} for v, arches in im.images.items()}
     try:
@@ -187,6 +189,11 @@ def impl_roundtrip(case):
         again = ["ok", im2.dumps()]
     except EXC as e:
         again = exc_result(e)
+    empties = [[v, a] for v, arches in json.loads(text)["payload"]["images"].items() for a, l in arches.items() if not l]
+    if empties:
+        return ["empty-cell-written", empties]
+    placed = {v: {a: l for a, l in arches.items() if l} for v, arches in placed.items()}
+    placed = {v: arches for v, arches in placed.items() if arches}
     return ["ok", [text, ["ok", [[full, comp, dump], again]]], placed, accepted]
 
 
